@@ -413,6 +413,7 @@ type stakeActs struct {
 	valRedelOK                      int
 	valUnbondOK                     int
 	batchOK, batchMixed, batchAuthz int
+	vaultClassProbed                int
 }
 
 func (a *stakeActs) valDelegate(t *rapid.T) {
@@ -574,7 +575,7 @@ func (a *stakeActs) slash(t *rapid.T) {
 	// Chain.Tx) so that a slash that falls into a known-finding class can be taken back: the
 	// class is then excluded "by construction" with predicates evaluated on the exact
 	// post-slash state.
-	excludedClass := ""
+	excludedClass, branchViolation := "", ""
 	err = w.C.Tx(fmt.Sprintf("BeginBlock: slash(validator %s, %s, infraction height %d) + dualstaking BeginBlocker", short(v.Addr.String()), frac, infraction), nil, func() error {
 		power := val.ConsensusPower(ts.Keepers.StakingKeeper.PowerReduction(ts.Ctx))
 		consAddr, _ := val.GetConsAddr()
@@ -585,13 +586,40 @@ func (a *stakeActs) slash(t *rapid.T) {
 			// the slash is taken back: in the class of a known finding the (non-atomic) BeginBlock leaves
 			// partially written state behind that cascades into later steps of the history
 			excludedClass = cls
+			if cls == findingSlashVault {
+				// Before the slash is taken back, the BeginBlocker still runs on this (discarded) branch to
+				// check what the listed finding does not concern: whatever happens to a provider vault
+				// whose re-balancing is refused, the plain (non-vault) delegators of the slashed validator
+				// are re-balanced in the same BeginBlock. A plain delegator's re-balancing only touches its
+				// own delegation records and the totals of its providers, so it cannot be affected by the
+				// vault's refused step. Rounding tolerance: 2 tokens.
+				func() {
+					defer func() {
+						if r := recover(); r != nil {
+							branchViolation = fmt.Sprintf("the dualstaking BeginBlocker panicked after the slash: %v", r)
+						}
+					}()
+					ts.Keepers.Dualstaking.BeginBlock(ts.Ctx, abci.RequestBeginBlock{})
+				}()
+				if branchViolation == "" {
+					branchViolation = plainDelegatorsUnbalanced(w, val.OperatorAddress, 2)
+				}
+			}
 			return fmt.Errorf("slash taken back: known finding %s", cls)
 		}
 		ts.Keepers.Dualstaking.BeginBlock(ts.Ctx, abci.RequestBeginBlock{})
 		return nil
 	})
+	if branchViolation != "" {
+		a.c.Clause("plain-delegators-rebalanced-although-a-vault-was-refused")
+		t.Fatalf("%s", ev.Violation("C06", "validator slash with a provider vault whose re-balancing is refused (listed finding %s), evaluated on a branch of the state: %s\nhistory (tail):\n  %s", findingSlashVault, branchViolation, histString(w, 40)))
+	}
 	switch {
 	case excludedClass != "":
+		if excludedClass == findingSlashVault {
+			a.c.Clause("plain-delegators-rebalanced-although-a-vault-was-refused")
+			a.vaultClassProbed++
+		}
 		a.c.Exclude(excludedClass)
 	case err != nil:
 		// a panic in BeginBlock is a chain halt: C37's subject, this case ends here
@@ -750,4 +778,31 @@ func witnessGuard(t *testing.T) {
 	if r := recover(); r != nil {
 		t.Skipf("witness cannot be set up (treated as: finding does not reproduce, search runs without exclusion): panic: %v", r)
 	}
+}
+
+// plainDelegatorsUnbalanced names a non-vault delegator of validator valOper whose provider delegations
+// exceed the ceiling of its validator tokens by more than tol tokens ("" if none).
+func plainDelegatorsUnbalanced(w *chain.World, valOper string, tol int64) string {
+	snap, _, err := readDual(w)
+	if err != nil {
+		return ""
+	}
+	stake := readStaking(w)
+	bounds := stake.bounds()
+	for _, d := range sortedKeys(stake.shares[valOper]) {
+		if _, isVault := w.C.TS.Keepers.Epochstorage.GetProviderMetadataByVault(w.C.TS.Ctx, d); isVault {
+			continue
+		}
+		b, ok := bounds[d]
+		if !ok {
+			continue
+		}
+		sum := snap.total(d)
+		hi := new(big.Int).Add(b[1], big.NewInt(tol))
+		lo := new(big.Int).Sub(b[0], big.NewInt(tol))
+		if sum.Cmp(hi) > 0 || sum.Cmp(lo) < 0 {
+			return fmt.Sprintf("plain delegator %s of the slashed validator was not re-balanced in the BeginBlock of the slash: provider delegations sum to %s, validator delegations are worth between %s and %s tokens", short(d), sum, b[0], b[1])
+		}
+	}
+	return ""
 }
